@@ -25,6 +25,10 @@ use std::{
 
 const EVICTION_BATCH_SIZE: usize = 100;
 
+// Verification hook: the batch size of the expiry purge / size eviction.
+#[cfg(mini_moka_verif)]
+pub(crate) const VERIF_EVICTION_BATCH_SIZE: usize = EVICTION_BATCH_SIZE;
+
 type CacheStore<K, V, S> = std::collections::HashMap<Rc<K>, ValueEntry<K, V>, S>;
 
 /// An in-memory cache that is _not_ thread-safe.
